@@ -17,11 +17,11 @@ var _ = item.NewItem
 // state de-duplication: an index is returned iff a state with exactly this item list exists (C09: no duplicate
 // states, no two different item sets identified)
 //@ func (*LR0).CheckIsExist
-//@ props C09 C01
+//@ props C09 C01 C02 C06
 //@ results idx, found
 //@ requires wfLR0(lr0) && IC != nil && (forall i int :: 0 <= i && i < len(IC.Items) ==> IC.Items[i] != nil)
-//@ ensures [C09,C01] found ==> 0 <= idx && idx < len(lr0.LR0Closure) && sameItems(lr0.LR0Closure[idx], IC)
-//@ ensures [C09,C01] !found ==> (forall s int :: 0 <= s && s < len(lr0.LR0Closure) ==> !sameItems(lr0.LR0Closure[s], IC))
+//@ ensures [C09,C01,C02,C06] found ==> 0 <= idx && idx < len(lr0.LR0Closure) && sameItems(lr0.LR0Closure[idx], IC)
+//@ ensures [C09,C01,C02,C06] !found ==> (forall s int :: 0 <= s && s < len(lr0.LR0Closure) ==> !sameItems(lr0.LR0Closure[s], IC))
 //@ modifies nothing
 //@ loop 0: invariant forall s int :: 0 <= s && s < idx0 ==> !sameItems(lr0.LR0Closure[s], IC)
 //@ loop 1: invariant 0 <= i && i <= len(ic_in.Items) && len(ic_in.Items) == len(IC.Items) && ic_in == lr0.LR0Closure[idx0]
@@ -29,12 +29,12 @@ var _ = item.NewItem
 //@ loop 1: decreases len(ic_in.Items) - i
 
 //@ func (*LR0).InsertItemClosure
-//@ props C09
+//@ props C09 C01 C02 C06
 //@ results n
 //@ requires wfLR0(lr0) && IC != nil && (forall i int :: 0 <= i && i < len(IC.Items) ==> IC.Items[i] != nil)
 //@ may_panic "Error: Items cannot empty"
-//@ ensures [C09] n >= 0 ==> n == old(len(lr0.LR0Closure)) && len(lr0.LR0Closure) == n + 1 && lr0.LR0Closure[n] == IC && IC.Index == n &&
+//@ ensures [C09,C01,C02,C06] n >= 0 ==> n == old(len(lr0.LR0Closure)) && len(lr0.LR0Closure) == n + 1 && lr0.LR0Closure[n] == IC && IC.Index == n &&
 //@     (forall s int :: 0 <= s && s < n ==> lr0.LR0Closure[s] == old(lr0.LR0Closure[s]))
-//@ ensures [C09] n < 0 ==> n == -1 && lr0.LR0Closure == old(lr0.LR0Closure) && needCheck
-//@ ensures [C09] !needCheck ==> n >= 0
+//@ ensures [C09,C01,C02,C06] n < 0 ==> n == -1 && lr0.LR0Closure == old(lr0.LR0Closure) && needCheck
+//@ ensures [C09,C01,C02,C06] !needCheck ==> n >= 0
 //@ modifies lr0.LR0Closure, IC.Index
